@@ -169,6 +169,60 @@ def clause4(P, res):
         res.violated(rid, "close-path-instances", f"expected >= 50 close-path instances, found {n}")
 
 
+# wake-one protocols whose publisher can carry several items per notify: (module prefix, dequeue, baton, notifier, batch publisher marker, why)
+BATON_ROWS = [
+    {"id": "mpmc-unbounded", "scope": "fibre::mpmc_v2::unbounded::shared::UnboundedShared::<T>::",
+     "dequeue": "pop_locked", "baton": "maybe_handoff", "notifier": "notify_receivers",
+     "batch_marker": "bump_batch", "batch_scope": "fibre::mpmc_v2::unbounded::producer::",
+     "why": "notify_receivers wakes one waiter per publish (kill-switch off) and send_batch publishes many items with one notify: unless a consumer that "
+            "leaves items behind wakes the next waiter, the other parked receivers sleep on a non-empty queue"},
+]
+
+
+def clause6(P, res):
+    rid = "C05-6"
+    res.rule(rid, "wake-one protocols pass the baton: where one notify can publish several items but wakes a single waiter, every body that dequeues calls the "
+                  "protocol's baton function, and on the live control-flow graph (edges contradicting a compile-time bool constant removed) the baton has a path that "
+                  "takes a waiter off the queue and hands its wake handle out, guarded only by run-time tests")
+    for row in BATON_ROWS:
+        baton = P.body(row["scope"] + row["baton"])
+        notifier = P.body(row["scope"] + row["notifier"])
+        if baton is None or notifier is None:
+            res.unclassified(rid, f"{row['id']}:shape", f"baton `{row['baton']}` or notifier `{row['notifier']}` not found: the protocol changed shape, re-read it and update BATON_ROWS", where="rules/c05.py")
+            continue
+        # is the row's premise still true? (a) some publisher carries several items per notify; (b) the notifier wakes at most one waiter on the live CFG
+        batchers = [b for b in P.bodies.values() if b.id.startswith(row["batch_scope"]) and any(e.method == row["batch_marker"] for e in b.calls())
+                    and any(e.method == row["notifier"] for e in b.calls())]
+        live_n = notifier.live_positions()
+        pops_n = [e for e in notifier.calls() if e.method in ("pop_front", "pop_back", "pop") and e.pos in live_n and "waiters" in notifier.path_of_operand(e.args[0])]
+        in_loop = [e for e in pops_n if notifier.pos_reaches(e.pos, {e.pos}, removed_edges=notifier.dead_const_edges())]
+        hand_n = [e for e in notifier.calls() if e.method == "handoff_session" and e.pos in live_n]
+        if not batchers:
+            res.holds(rid, f"{row['id']}:premise", "no publisher carries more than one item per notify: wake-one is sufficient", where=f"{notifier.file}:{notifier.line}", nontrivial=False)
+            continue
+        if hand_n or in_loop:
+            res.holds(rid, f"{row['id']}:notifier", "the notifier itself serves every waiter it can (hand-off session / loop)", where=f"{notifier.file}:{notifier.line}")
+            continue
+        # every dequeuing body calls the baton
+        for b in P.bodies.values():
+            if not b.id.startswith(row["scope"]) or b.id in (baton.id,) or b.name == "handoff_session":
+                continue
+            if any(e.method == row["dequeue"] for e in b.calls()):
+                k = f"{row['id']}:{b.id}"
+                if any(e.method == row["baton"] for e in b.calls()):
+                    res.holds(rid, k, f"dequeues and calls {row['baton']}", where=f"{b.file}:{b.line}")
+                else:
+                    res.violated(rid, k, f"{b.name} dequeues with {row['dequeue']} but never calls {row['baton']}: items it leaves behind wake nobody. " + row["why"], where=f"{b.file}:{b.line}")
+        live_b = baton.live_positions()
+        pops = [e for e in baton.calls() if e.pos in live_b and ((e.method in ("pop_front", "pop_back", "pop") and "waiters" in baton.path_of_operand(e.args[0])) or e.method == "handoff_session")]
+        k = f"{row['id']}:{baton.id}"
+        if pops:
+            res.holds(rid, k, f"live path takes a waiter at {pops[0].loc}", where=pops[0].loc, witness=[f"multi-item publisher {b.id}" for b in batchers[:3]])
+        else:
+            res.violated(rid, k, f"{row['baton']} wakes nobody on the live control-flow graph (its only wake is behind a compile-time-false switch). " + row["why"],
+                         where=f"{baton.file}:{baton.line}", witness=[f"multi-item publisher {b.id}" for b in batchers[:3]])
+
+
 def run(P, ctx):
     res = Result("C05")
     res.extra["explanation"] = "Park/notify protocol shapes at every site that blocks a thread in fibre's channels."
@@ -177,4 +231,5 @@ def run(P, ctx):
     clause3(P, res)
     clause4(P, res)
     clause5(P, res)
+    clause6(P, res)
     return res
